@@ -75,7 +75,10 @@ def real_case(prog, base):
     import os
     import time
     from real import runner
-    res, p = runner.run_driver("drv_c06.py", prog, base, timeout=240)
+    env = None
+    if prog.get("plan"):
+        env = {"LOKY_VERIF_PLAN": json.dumps(prog["plan"]), "LOKY_VERIF_DIR": "."}
+    res, p = runner.run_driver("drv_c06.py", prog, base, timeout=240, env_extra=env, hooks=bool(prog.get("plan")))
     d = res["dir"]
     pids = {}
     try:
@@ -147,9 +150,12 @@ def real_shard(seed, n, tier="quick"):
     @settings(max_examples=n, database=None, deadline=None, suppress_health_check=list(HealthCheck), report_multiple_bugs=False,
               phases=phases)
     @given(st.integers(1, 3), st.lists(task, min_size=1, max_size=5), st.booleans(), st.sampled_from(["shutdown", "shutdown", "reusable_kill"]),
-           st.sampled_from([0, 0.05, 0.3]))
-    def t(workers, tasks, psutil_, via, delay):
+           st.sampled_from([0, 0.05, 0.3]), st.sampled_from([0, 0, 1, 2]))
+    def t(workers, tasks, psutil_, via, delay, reap_nth):
         prog = {"workers": workers, "tasks": tasks, "psutil": psutil_, "via": via, "delay": delay}
+        if reap_nth and psutil_:
+            # fault point: a listed descendant exits (and is reaped) between the listing of the tree and its own kill
+            prog["plan"] = [{"point": "kill_tree.listed", "role": "parent", "nth": reap_nth, "action": "reap_descendant"}]
         res = real_case(prog, base)
         case = {"engine": "real", "prog": prog}
         v = real_oracle(prog, res)
@@ -160,6 +166,7 @@ def real_shard(seed, n, tier="quick"):
             acc.count("real_cases")
             acc.count("real_psutil:" + str(psutil_))
             acc.count("real_via:" + via)
+            acc.count("real_with_reap_fault" if prog.get("plan") else "real_no_fault")
             acc.count("real_recorded_pids", res["n_pids"])
         if v:
             fails.append({"kind": v[0][0], "detail": v[0][1], "case": case, "where": "real"})
